@@ -174,6 +174,7 @@ func Minimise(t *testing.T, d *Desc, prop, class string, maxTrials int) (*Desc, 
 				func(sd *SchedD) bool { x := sd.FreqSteps > 0; sd.FreqSteps = 0; return x },
 				func(sd *SchedD) bool { x := sd.WaitCtx != 0; sd.WaitCtx = 0; return x },
 				func(sd *SchedD) bool { x := sd.SharedErr; sd.SharedErr = false; return x },
+				func(sd *SchedD) bool { x := sd.SlowEmit; sd.SlowEmit = false; return x },
 				func(sd *SchedD) bool { x := sd.CtxKind != 0; sd.CtxKind = 0; return x },
 				func(sd *SchedD) bool { x := sd.WaitDelay > 0; sd.WaitDelay /= 2; return x },
 				func(sd *SchedD) bool { x := sd.DelaySteps > 0; sd.DelaySteps /= 2; return x },
